@@ -92,9 +92,84 @@ NOT_WHITELISTED = [('EIf', ('EBool', True), ('EBlock', [], ('EInt', 1)), ('EBloc
                    ('EBlock', [], ('EInt', 1)),
                    ('EBlock', [('SCheck', ('EBool', False), ('ETodo',))], ('EInt', 1))]
 
+ZZ_FUNS = [{'name': 'zz_f', 'params': [('n', cc.T_INT)], 'ret': cc.T_INT,
+            'body': [('SCheck', ('EBin', 'BNe', ('EVar', 'n'), ('EInt', 1)), ('ETodo',)), ('SReturn', ('EVar', 'n'))]},
+           {'name': 'zz_mk', 'params': [('n', cc.T_INT)], 'ret': ('struct', 'S0'),
+            'body': [('SReturn', ('EStruct', 'S0', [('a', ('EVar', 'n')), ('b', ('EBool', True))]))]}]
+
+
+def forbidden_int(r):
+    """an int expression that is not finish code: it can fail a check, panic, or is a call / control flow"""
+    return r.choice([('ECall', 'zz_f', [('EInt', 1)]),
+                     ('ECall', 'saturating_add', [('EInt', 1), ('EInt', 2)]),
+                     ('EBlock', [('SCheck', ('EBool', False), ('ETodo',))], ('EInt', 1)),
+                     ('EBlock', [], ('EInt', 1)),
+                     ('EIf', ('EBool', True), ('EBlock', [], ('EInt', 1)), ('EBlock', [], ('EInt', 2))),
+                     ('EMatch', ('EBool', True), [(('PVals', [('PLit', ('LBool', True))]), ('EInt', 1)), (('PDefault',), ('EInt', 2))]),
+                     ('ECoalesce', ('EWrap', 'W_Some', ('EInt', 1)), ('EInt', 2)),
+                     ('ETodo',)])
+
+
+def nested_forbidden(r, opt_slot):
+    """a forbidden expression at nesting depth 1-3 under whitelisted constructors: struct literal field, Some(..), field access"""
+    e = forbidden_int(r)
+    depth = r.choice([0, 1, 1, 2]) if opt_slot else r.choice([1, 1, 2, 3])
+    for _ in range(depth):
+        c = r.below(3)
+        if c < 2:      # (S0 { a: e, b: true }).a - inside a named struct literal, under a dot
+            e = ('EDot', ('EStruct', 'S0', [('a', e), ('b', ('EBool', True))]), 'a')
+        else:          # f(e).a - the left of a dot is a call
+            e = ('EDot', ('ECall', 'zz_mk', [e]), 'a')
+    return ('EWrap', 'W_Some', e) if opt_slot else e
+
+
+def nest_in_finish(r, pol, lists):
+    """put a nested forbidden expression into an operand of a finish statement; True when done"""
+    inside = [l for (l, cx) in lists if cx in ('finish', 'finfn')]
+    cands = []
+    for l in inside:
+        for i, st in enumerate(l):
+            k = st[0]
+            if k in ('SCreate', 'SDelete', 'SUpdate'):
+                cands += [(l, i, 'key', j) for j in range(len(st[2]))]
+                if k == 'SCreate':
+                    cands += [(l, i, 'val', j) for j, (f, _) in enumerate(st[3]) if f == 'v']
+                if k == 'SUpdate':
+                    cands += [(l, i, 'to', j) for j, (f, _) in enumerate(st[4]) if f == 'v']
+            elif k == 'SEmit' and st[1][0] == 'EStruct':
+                cands += [(l, i, 'emit', j) for j, (f, _) in enumerate(st[1][2]) if f in ('a', 'o')]
+            elif k == 'SCall':
+                f = [x for x in pol['finfuns'] if x['name'] == st[1]]
+                if f:
+                    cands += [(l, i, 'arg', j) for j, (_, pt) in enumerate(f[0]['params']) if pt == cc.T_INT]
+    if not cands:
+        return False
+    l, i, where, j = r.choice(cands)
+    st = l[i]
+    def put(fields, opt_slot=False):
+        fields = list(fields)
+        fields[j] = (fields[j][0], nested_forbidden(r, opt_slot))
+        return fields
+    if where == 'key':
+        l[i] = st[:2] + (put(st[2]),) + st[3:]
+    elif where == 'val':
+        l[i] = st[:3] + (put(st[3]),)
+    elif where == 'to':
+        l[i] = st[:4] + (put(st[4]),)
+    elif where == 'emit':
+        fs = st[1][2]
+        l[i] = ('SEmit', ('EStruct', st[1][1], put(fs, opt_slot=(fs[j][0] == 'o'))))
+    else:
+        args = list(st[2])
+        args[j] = nested_forbidden(r, False)
+        l[i] = ('SCall', st[1], args)
+    pol['funs'] = list(pol['funs']) + [f for f in ZZ_FUNS if f['name'] not in [x['name'] for x in pol['funs']]]
+    return True
+
+
 # kinds every one of which the compiler has to reject
 MUST_REJECT = ('write-outside-finish', 'write-in-branch-outside-finish', 'not-a-finish-statement-in-finish',
-               'not-whitelisted-expression-in-finish', 'finish-in-function')
+               'not-whitelisted-expression-in-finish', 'finish-in-function', 'nested-forbidden-expression-in-finish')
 
 
 def misplace(r, pol):
@@ -102,7 +177,11 @@ def misplace(r, pol):
     pol = copy.deepcopy(pol)
     lists = stmt_lists(pol)
     for _ in range(30):
-        c = r.below(7)
+        c = r.below(11)
+        if c >= 7:
+            if nest_in_finish(r, pol, lists):
+                return pol, 'nested-forbidden-expression-in-finish'
+            continue
         outside = [l for (l, cx) in lists if cx in ('policy', 'recall', 'fn')]
         inside = [l for (l, cx) in lists if cx in ('finish', 'finfn')]
         if c == 0 and outside:
